@@ -359,7 +359,9 @@ class SimpleBinaryTime(Operators.Binary):
         if left == TimePeriod and right == Date:
             return False
 
-        return not (left == TimePeriod and right == Date)
+        # Otherwise the generic rule decides, so that this check accepts exactly the pairs for
+        # which type_validation() computes a result type.
+        return super().validate_type_compatibility(left, right)
 
     @classmethod
     def validate(
